@@ -46,7 +46,9 @@ def run_file(path):
 
 def read_all(path):
     with Dataset(path) as nc:
-        return {k: np.ma.filled(nc.variables[k][:].astype(float), -999.0) for k in ("time", "particle_count", "pid", "X", "Y", "Z", "release_time") if k in nc.variables}
+        out = {k: np.ma.filled(nc.variables[k][:].astype(float), -999.0) for k in ("time", "particle_count", "pid", "X", "Y", "Z", "release_time") if k in nc.variables}
+        out["__dtypes__"] = np.array([ord(c) for k in sorted(out) for c in (k + ":" + str(nc.variables[k].dtype) + ";")], float)  # storage types as a comparable array
+        return out
 
 
 def spellings_bounded(p):
@@ -106,6 +108,9 @@ def spellings_bounded(p):
                     c["warm_start"] = dict()
                 return c
 
+            if tag == "B":
+                # a YAML anchor/alias used as a template: Y shares the mapping object of X (safe_dump writes &id/*id)
+                v1["output_variables"]["Y"] = v1["output_variables"]["X"]
             (sub / "v1.yaml").write_text(yaml.safe_dump(v1, sort_keys=False))
             (sub / "v2.yaml").write_text(yaml.safe_dump(v2("v2y.nc", True), sort_keys=False))
             (sub / "v2.toml").write_text(toml_dump(v2("v2t.nc", False)))
@@ -121,7 +126,7 @@ def spellings_bounded(p):
                 if ref is None or name == "v2-yaml":
                     continue
                 for k in ref:
-                    if k not in o or o[k].shape != ref[k].shape or not np.allclose(o[k], ref[k], atol=1e-9):
+                    if k not in o or o[k].shape != ref[k].shape or not np.allclose(o[k], ref[k], rtol=0, atol=1e-9):
                         failures.append(dict(scenario=tag, what=f"{name} differs from v2-yaml in {k}"))
                         break
         # history independence: several configure() calls in ONE process; a set-up without grid section must take ITS OWN
